@@ -72,10 +72,15 @@ CHECKS = {
                  "TimeoutCounter[source chain] iff this is block H+T and no receipt was accepted in a block <= H+T, listed at "
                  "most once overall, status BEGIN_ROLLBACK afterwards, header TimeoutRoot equals the recomputed root of the "
                  "listed ids, GetStatus of transactions with an accepted receipt never altered. Non-trivial = receipt within "
-                 "one block of H+T, >=2 ids sharing an expiry height, or a restart inside (H,H+T); distinct = hash of history."),
-        "assumptions": ["one-to-many groups and their timeouts are decided by the C05 check"],
-        "quick": [T("TestC06", 8, 150, steps=30)],
-        "thorough": [T("TestC06", 16, 1200, steps=45, timeout=3000)],
+                 "one block of H+T, >=2 ids sharing an expiry height, or a restart inside (H,H+T); distinct = hash of history. "
+                 "TestC06Groups: the C05 group generator (1-2 groups of 1-6 children over two destination chains, unavailable "
+                  "destinations, over-declared groups, T in {0,2,3,4,6,20}); oracle per block: children of a group are listed in "
+                  "the timeout notifications only in the block where the unsettled group reaches first-accept height + T, at most "
+                  "once per chain; the group's statuses change only in a block with an accepted request/receipt of the group or at "
+                  "that timeout. Non-trivial = a group times out, or reaches its timeout height already settled."),
+        "assumptions": [],
+        "quick": [T("TestC06", 8, 150, steps=30), T("TestC06Groups", 8, 150, steps=30)],
+        "thorough": [T("TestC06", 16, 1200, steps=45, timeout=3000), T("TestC06Groups", 16, 2000, steps=40, timeout=3000)],
     },
     "C02": {
         "level": "exploration",
